@@ -1,4 +1,9 @@
-head=open('/tmp/b03_head.txt').read(); p2=open('/tmp/b03_p2.txt').read(); part1=open('/verif/coq/wip/xu/part1.v.txt').read()
+src=open('/verif/coq/theories/Diff/DiffSpecProofs.v').read()
+_i1=src.index("(* ------------------------------------------------------------------ *)\n(** * Part 1: no path is both added")
+_i2=src.index("(* ------------------------------------------------------------------ *)\n(** * Part 2: the text view")
+_i3=src.index("(* the model of the real item hash (memo-free DeepHash of a scalar")
+head=src[:_i1]; p2=src[_i2:_i3]; part1=open('/verif/coq/wip/xu/part1.v.txt').read()
+TAIL=open('/verif/coq/wip/xu/xu_spec_tail.v.txt').read()
 def R(s,a,b,cnt=1):
     assert s.count(a)==cnt or (cnt is None and s.count(a)>=1), (s.count(a), a[:70])
     return s.replace(a,b)
@@ -106,4 +111,4 @@ Proof.
   apply (positional_run_is_spec_guarded xrepr xstr hatom udiff ops excl d ip any_atom); try assumption.
   intros a b _ _. apply Hinj.
 Qed.''')
-open("/verif/coq/wip/xu/Diff/XuSpecProofs.v","w").write((head+part1+p2).replace("tail_items TIter","tail_items xrepr TIter").replace("Local Opaque render set_item_text pystr_eqb.","Local Opaque XuTextView.render XuTextView.set_item_text pystr_eqb."))
+open("/verif/coq/wip/xu/Diff/XuSpecProofs.v","w").write((head+part1+p2).replace("tail_items TIter","tail_items xrepr TIter").replace("Local Opaque render set_item_text pystr_eqb.","Local Opaque XuTextView.render XuTextView.set_item_text pystr_eqb.")+TAIL)
